@@ -18,7 +18,7 @@ out = ["# Seeded changes", "",
        "Each directory holds `patch.diff` (the change), `demo_test.go` (fails with the change, passes without), `notes.md`",
        "(the sub-agent's own description and the commands it ran) and `meta.json` (what it breaks, what it needs to manifest,",
        "what was run to confirm it and which checks caught it). Sub-agents saw only the property text and a scratch worktree.",
-       "`-sN`, `-rN`, `-tN`, `-uN`, `-vN`, `-wN`, `-xN`, `-yN`, `-zN`, `-aN` = rounds one to ten (from round two on the agents were asked for changes different",
+       "`-sN`, `-rN`, `-tN`, `-uN`, `-vN`, `-wN`, `-xN`, `-yN`, `-zN`, `-aN`, `-bN` = rounds one to eleven (from round two on the agents were asked for changes different",
        "from the earlier rounds'). `patch.orig.diff`, where present, is the patch as delivered; `patch.diff` is then the same change",
        "carried over by hand onto the tree after a later `fix:` commit touched the same lines.", "",
        "| id | breaks | needs in order to manifest | caught by (quick tier) |", "|---|---|---|---|"]
